@@ -4,7 +4,7 @@ from pyvc import run
 
 KEEP = ("T1 ", "T2 ", "T3 ", "T4 ", "T5 ", "T6 ", "T7 ", "T8 ", "T9 ", "T10 ", "frame_inv", "unstuff(raw)", "octets == raw", "no pending escape", "2047", "consumes at least", "every octet of the chunk", "returned", "pre:", "inv-entry", "inv-keep")
 def build(repo, tier, seed):
-    tasks = M.hdlc_tasks(repo, ("lemmas", "get_address", "init", "append", "valid", "accessors"), True)
+    tasks = M.hdlc_tasks(repo, ("lemmas", "get_address", "init", "append", "valid", "accessors"), True) + [(f"segment lemma {cfg}", M.group_segment_lemma, (repo, cfg)) for cfg in M.CONFIGS if cfg[0]]
     r = M.groups_result(tasks, select=None)
     r.functions = sorted(set(M.READER_FUNCS) | {o.func for o in r.obligations if o.func})
     r.level = "other"
